@@ -171,3 +171,9 @@ mod test {
 pub mod verif_hooks {
   pub use crate::match_tree::verif_hooks::*;
 }
+
+/// verification hooks of embedded-language extraction (`Root::get_injections`)
+#[cfg(feature = "verif-hooks")]
+pub mod verif_hooks_injection {
+  pub use crate::node::verif_hooks_injection::*;
+}
